@@ -110,7 +110,7 @@ pub trait GuaranteedTicketWinnersModule:
                 op.leftover_tickets += user_guaranteed_tickets_no - remaining_tickets_to_be_won;
 
                 let mut current_ticket = ticket_range.first_id;
-                while remaining_tickets_to_be_won > 0 {
+                while remaining_tickets_to_be_won > 0 && current_ticket <= ticket_range.last_id {
                     let is_winning_ticket = self.ticket_status(current_ticket).get();
                     if !is_winning_ticket {
                         self.ticket_status(current_ticket).set(WINNING_TICKET);
@@ -119,6 +119,8 @@ pub trait GuaranteedTicketWinnersModule:
                     }
                     current_ticket += 1;
                 }
+
+                op.leftover_tickets += remaining_tickets_to_be_won;
             }
             CONTINUE_OP
         })
